@@ -1,0 +1,9 @@
+//go:build verif
+// +build verif
+
+package json
+
+// VerifNumRead reports the number of input bytes the decoder has consumed so
+// far (net of the one-byte push-back after a number).  Verification hook:
+// compiled only with the "verif" build tag.
+func (d *Decoder) VerifNumRead() int { return d.r.NumRead() }
